@@ -744,18 +744,62 @@ Proof.
     rewrite H in Bad by (left; reflexivity). discriminate.
 Qed.
 
-(* H_unmarshal_view, the inbound half, as a theorem: whenever etree (duplicates preserved) reads the WHOLE document and the
-   declaration, if any, does not name a foreign encoding, the element xml.Unmarshal's token loop consumes from the same bytes
-   is etree's root element. *)
+(* H_unmarshal_view, the inbound half, as a theorem: whenever etree (duplicates preserved) reads the WHOLE document, the
+   element the pre-decoder's token loop (xmlUnmarshalDocument: the decoder configuration etree uses) consumes from the same
+   bytes is etree's root element.  No premise on the declaration: both readers pass a foreign encoding through. *)
 Theorem predecode_reads_the_same_tokens s kids root :
   read_doc false s = Ok kids -> first_elem kids = Some root ->
-  (forall toks i, raw_tokens s = Ok toks -> In (RProcInst "xml" i) toks -> encoding_ok i = true) ->
   token_view s = Ok root.
 Proof.
-  unfold read_doc, raw_tokens, tokens_of, token_view, token_prefix. intros H Hr Henc.
+  unfold read_doc, raw_tokens, tokens_of, token_view, token_view_with, token_prefix, cs_flag. intros H Hr.
+  destruct (snd (run true S0 s)) eqn:Sn; [discriminate H|]. cbn [bind] in H.
+  apply (build_tv_skip _ [] kids root H eq_refl Hr).
+Qed.
+
+(* the code before the repair (xml.Unmarshal: no CharsetReader) needed the declaration, if any, to name no foreign encoding *)
+Theorem predecode_original_reads_the_same_tokens s kids root :
+  read_doc false s = Ok kids -> first_elem kids = Some root ->
+  (forall toks i, raw_tokens s = Ok toks -> In (RProcInst "xml" i) toks -> encoding_ok i = true) ->
+  token_view_original s = Ok root.
+Proof.
+  unfold read_doc, raw_tokens, tokens_of, token_view_original, token_view_with, token_prefix, cs_flag. intros H Hr Henc.
   destruct (snd (run true S0 s)) eqn:Sn; [discriminate H|]. cbn [bind] in H.
   rewrite run_cs_agree by (intros i Hi; apply (Henc _ i eq_refl Hi)).
   apply (build_tv_skip _ [] kids root H eq_refl Hr).
+Qed.
+
+(* the repair only adds: what the decoder without CharsetReader delivers is a prefix of what the pass-through one delivers,
+   and a token loop that has found its element does not look at later tokens *)
+Lemma run_cs_prefix : forall s st, exists more, fst (run true st s) = fst (run false st s) ++ more.
+Proof.
+  induction s as [|c r IH]; intros st; [exists []; rewrite app_nil_r; reflexivity|].
+  rewrite !run_cons. destruct (step_cs st c) as [E | (E & inst & E' & Bad)].
+  - rewrite E. destruct (step true st c) as [s'|t s'|]; [apply IH | | exists []; reflexivity].
+    destruct (IH s') as [more Hm]. exists more. unfold emit. cbn [fst]. rewrite Hm. apply app_assoc.
+  - rewrite E. cbn [fst app]. eexists. reflexivity.
+Qed.
+
+Lemma tv_elem_app more : forall toks stk cur e, tv_elem toks stk cur = Ok e -> tv_elem (toks ++ more) stk cur = Ok e.
+Proof.
+  induction toks as [|t r IH]; intros stk cur e H; [discriminate H|].
+  destruct t as [sp lo a | sp lo | x | x | tg i | x]; cbn [tv_elem app] in *; try (apply IH; exact H).
+  destruct stk as [|f stk]; [discriminate H|].
+  destruct ((f_tag f =?s lo) && (f_space f =?s sp)); [|discriminate H].
+  destruct stk as [|f' stk']; [exact H | apply IH; exact H].
+Qed.
+
+Lemma tv_skip_app more : forall toks e, tv_skip toks = Ok e -> tv_skip (toks ++ more) = Ok e.
+Proof.
+  induction toks as [|t r IH]; intros e H; [discriminate H|].
+  destruct t as [sp lo a | sp lo | x | x | tg i | x]; cbn [tv_skip app] in *; try (apply IH; exact H).
+  - apply tv_elem_app. exact H.
+  - discriminate H.
+Qed.
+
+Theorem repair_preserves_token_view s r : token_view_original s = Ok r -> token_view s = Ok r.
+Proof.
+  unfold token_view_original, token_view, token_view_with, token_prefix, cs_flag. intros H.
+  destruct (run_cs_prefix s S0) as [more ->]. apply tv_skip_app. exact H.
 Qed.
 
 (* etree's default reading (duplicates collapsed) is the duplicate-preserving reading followed by Xml.dedupe *)
@@ -788,8 +832,21 @@ Qed.
 
 Theorem predecode_view_of_validated_tree s r :
   read_tree s = Ok r ->
-  (forall toks i, raw_tokens s = Ok toks -> In (RProcInst "xml" i) toks -> encoding_ok i = true) ->
   exists r0, token_view s = Ok r0 /\ read_root_raw s = Ok (Some r0) /\ dedupe r0 = r.
+Proof.
+  intros H. unfold read_tree, read_root, read_root_raw, read_doc in *.
+  destruct (raw_tokens s) as [toks|e] eqn:T; [|discriminate H]. cbn [bind] in *.
+  pose proof (build_dedupe toks [] []) as D. cbn [map] in D. rewrite D in H.
+  destruct (build false toks [] []) as [k|e] eqn:Bf; [|discriminate H]. cbn [bind] in *.
+  rewrite first_elem_map_dedupe in H. destruct (first_elem k) as [r0|] eqn:F; [|discriminate H].
+  cbn [option_map] in H. injection H as <-. exists r0. split; [|split; reflexivity].
+  apply (predecode_reads_the_same_tokens s k r0); [unfold read_doc; rewrite T; exact Bf | exact F].
+Qed.
+
+Theorem predecode_original_view_of_validated_tree s r :
+  read_tree s = Ok r ->
+  (forall toks i, raw_tokens s = Ok toks -> In (RProcInst "xml" i) toks -> encoding_ok i = true) ->
+  exists r0, token_view_original s = Ok r0 /\ read_root_raw s = Ok (Some r0) /\ dedupe r0 = r.
 Proof.
   intros H Henc. unfold read_tree, read_root, read_root_raw, read_doc in *.
   destruct (raw_tokens s) as [toks|e] eqn:T; [|discriminate H]. cbn [bind] in *.
@@ -797,7 +854,7 @@ Proof.
   destruct (build false toks [] []) as [k|e] eqn:Bf; [|discriminate H]. cbn [bind] in *.
   rewrite first_elem_map_dedupe in H. destruct (first_elem k) as [r0|] eqn:F; [|discriminate H].
   cbn [option_map] in H. injection H as <-. exists r0. split; [|split; reflexivity].
-  apply (predecode_reads_the_same_tokens s k r0); [unfold read_doc; rewrite T; exact Bf | exact F |].
+  apply (predecode_original_reads_the_same_tokens s k r0); [unfold read_doc; rewrite T; exact Bf | exact F |].
   intros toks' i Ht. rewrite T in Ht. injection Ht as <-. apply Henc. reflexivity.
 Qed.
 
@@ -878,15 +935,42 @@ Lemma lax_name_not_read_back :
   (exists e, read_tree (etree_write (Elem "" "1a" [] [])) = Err e).
 Proof. split; [vm_compute; reflexivity|]. split; [vm_compute; reflexivity|]. eexists. vm_compute. reflexivity. Qed.
 
-(* the two readers of the inbound path DISAGREE on a declaration naming another encoding: etree (pass-through
-   CharsetReader) reads the document, xml.Unmarshal (no CharsetReader) refuses it -- the premise of
-   [predecode_reads_the_same_tokens] cannot be dropped.  Confirmed on the real decoders by the fixed cases of the
-   xmltok stream. *)
+(* before the repair 6cc4dbc the two readers of the inbound path DISAGREED on a declaration naming another encoding: etree
+   (pass-through CharsetReader) reads the document, xml.Unmarshal (no CharsetReader) refuses it -- the premise of
+   [predecode_original_reads_the_same_tokens] cannot be dropped; the repaired pre-decoder reads what etree reads.
+   Confirmed on the real decoders by the fixed cases of the xmltok stream. *)
 Definition latin1_doc : string := "<?xml version=""1.0"" encoding=""ISO-8859-1""?><a ID=""1""/>".
-Lemma predecode_foreign_encoding_refuted :
+Lemma predecode_foreign_encoding_before_repair_refuted :
   read_tree latin1_doc = Ok (Elem "" "a" [ {| at_space := ""; at_key := "ID"; at_val := "1" |} ] []) /\
-  token_view latin1_doc = Err syntax_error.
-Proof. split; vm_compute; reflexivity. Qed.
+  token_view_original latin1_doc = Err syntax_error /\
+  token_view latin1_doc = Ok (Elem "" "a" [ {| at_space := ""; at_key := "ID"; at_val := "1" |} ] []).
+Proof. split; [|split]; vm_compute; reflexivity. Qed.
+
+(* the non-trivial example document under a declaration naming ISO-8859-1 (and one naming "utf8", which is not "utf-8"):
+   the premise-free theorem applies, the views exist and differ by de-duplication only *)
+Definition ex_doc_latin1 : string :=
+  "<?xml version=""1.0"" encoding=""ISO-8859-1""?>" ++ lf1 ++
+  "<!DOCTYPE r [<!ENTITY e 'v>'> <!-- c > -->]>" ++
+  "<p:r xmlns:p='urn:x' a=""1&lt;2"" b = '&#x41;&#66;' a='again'>t&amp;u" ++ cr1 ++ lf1 ++
+  "<![CDATA[<raw>&]]><!-- note --><?pi d?><e/></p:r >" ++ lf1.
+Definition ex_doc_utf8_label : string :=
+  "<?xml version='1.0' encoding='utf8'?><r ID=""_1"" ID=""_2"">x</r>".
+Lemma ex_doc_latin1_views_exist :
+  (exists r r0, read_tree ex_doc_latin1 = Ok r /\ token_view ex_doc_latin1 = Ok r0 /\ dedupe r0 = r /\ r0 <> r /\
+                token_view_original ex_doc_latin1 = Err syntax_error) /\
+  (exists r r0, read_tree ex_doc_utf8_label = Ok r /\ token_view ex_doc_utf8_label = Ok r0 /\ dedupe r0 = r /\ r0 <> r /\
+                token_view_original ex_doc_utf8_label = Err syntax_error).
+Proof.
+  split.
+  - destruct (read_tree ex_doc_latin1) as [r|e] eqn:R; [|vm_compute in R; discriminate R].
+    destruct (predecode_view_of_validated_tree _ _ R) as (r0 & Hv & _ & Hd).
+    exists r, r0. split; [reflexivity|]. split; [exact Hv|]. split; [exact Hd|]. split; [|vm_compute; reflexivity].
+    vm_compute in R, Hv. injection R as <-. injection Hv as <-. discriminate.
+  - destruct (read_tree ex_doc_utf8_label) as [r|e] eqn:R; [|vm_compute in R; discriminate R].
+    destruct (predecode_view_of_validated_tree _ _ R) as (r0 & Hv & _ & Hd).
+    exists r, r0. split; [reflexivity|]. split; [exact Hv|]. split; [exact Hd|]. split; [|vm_compute; reflexivity].
+    vm_compute in R, Hv. injection R as <-. injection Hv as <-. discriminate.
+Qed.
 
 (* xml.Unmarshal stops at the end tag of the first element: what follows is never read, while etree rejects the document *)
 Lemma predecode_ignores_what_follows_the_root :
